@@ -25,6 +25,12 @@ type c04ID struct {
 	Pass string `json:"pass,omitempty"`
 	// PassRaw carries passphrases that are not valid UTF-8 (JSON would mangle them in Pass)
 	PassRaw []byte `json:"passRaw,omitempty"`
+	// MaxWF > 0: the passphrase identity's configured maximum work factor
+	MaxWF int `json:"maxWF,omitempty"`
+	// LongDiff > 0: the passphrase is the file's long passphrase (see LongPass)
+	// with the character at offset LongDiff-1 changed (LongCase: only its case)
+	LongDiff int  `json:"longDiff,omitempty"`
+	LongCase bool `json:"longCase,omitempty"`
 }
 
 type c04Case struct {
@@ -38,11 +44,25 @@ type c04Case struct {
 	// attempt (the file is real, and earlier successes must not help later
 	// strangers).
 	Control bool `json:"control"`
+	// LongPass > 0: the file's (single, passphrase) recipient uses a passphrase of that many characters
+	LongPass int `json:"longPass,omitempty"`
+}
+
+// c04Long is the long passphrase of a given length (letters, so that case can change).
+func c04Long(n int) []byte {
+	b := make([]byte, n)
+	for i := range b {
+		b[i] = "abcdefghijklmnopqrstuvwxyz"[(i*7+i/26)%26]
+	}
+	return b
 }
 
 func c04Check(c c04Case, st *stats.Run) error {
 	p := hx.ThePool()
 	plain := hx.PRG(9, c.PlainLen)
+	if c.LongPass > 0 {
+		c.Recs = []hx.RecSpec{{Kind: "scrypt", Pass: string(c04Long(c.LongPass)), WF: 1}}
+	}
 	var recs []age.Recipient
 	for _, r := range c.Recs {
 		recs = append(recs, p.Recipient(r))
@@ -81,9 +101,22 @@ func c04Check(c c04Case, st *stats.Run) error {
 			if i.PassRaw != nil {
 				i.Pass = string(i.PassRaw)
 			}
+			if i.LongDiff > 0 && c.LongPass > 0 {
+				lp := c04Long(c.LongPass)
+				k := (i.LongDiff - 1) % len(lp)
+				if i.LongCase {
+					lp[k] -= 'a' - 'A'
+				} else {
+					lp[k] = 'a' + (lp[k]-'a'+1)%26
+				}
+				i.Pass = string(lp)
+			}
 			id, err := age.NewScryptIdentity(i.Pass)
 			if err != nil {
 				return pbt.Failf("C04/harness", "bad passphrase: %v", err)
+			}
+			if i.MaxWF > 0 {
+				id.SetMaxWorkFactor(i.MaxWF)
 			}
 			ids = append(ids, id)
 			sameType = sameType || types["scrypt"]
@@ -104,9 +137,15 @@ func c04Check(c c04Case, st *stats.Run) error {
 			}
 		}
 	}
-	st.Case(sameType, stats.HashJSON(c), lab, "mix="+hx.KindsOf(c.Recs), fmt.Sprintf("ids=%d", len(c.IDs)), fmt.Sprintf("allNative=%v", allNative), fmt.Sprintf("control-first=%v", c.Control))
+	shown := c
+	if c.LongPass > 0 {
+		// keep the long passphrase out of hashes and samples: LongPass names it
+		shown.Recs = nil
+		lab = "near-miss-passphrase-long"
+	}
+	st.Case(sameType, stats.HashJSON(shown), lab, "mix="+hx.KindsOf(c.Recs), fmt.Sprintf("ids=%d", len(c.IDs)), fmt.Sprintf("allNative=%v", allNative), fmt.Sprintf("control-first=%v", c.Control))
 	if sameType {
-		st.Sample(lab+"/"+hx.KindsOf(c.Recs), c)
+		st.Sample(lab+"/"+hx.KindsOf(c.Recs), shown)
 	}
 	if c.Control {
 		for _, r := range c.Recs {
@@ -189,7 +228,11 @@ func c04Gen(t *rapid.T) c04Case {
 			case 1:
 				c.IDs = append(c.IDs, c04ID{Kind: "ed25519", Idx: rapid.IntRange(0, 5).Draw(t, "ei")})
 			default:
-				c.IDs = append(c.IDs, c04ID{Kind: "scrypt", Pass: rapid.SampledFrom(nearPassphrases(c.Recs[0].Pass)).Draw(t, "near")})
+				id := c04ID{Kind: "scrypt", Pass: rapid.SampledFrom(nearPassphrases(c.Recs[0].Pass)).Draw(t, "near")}
+				if rapid.IntRange(0, 2).Draw(t, "capped") == 0 {
+					id.MaxWF = c.Recs[0].WF + rapid.IntRange(0, 2).Draw(t, "capAbove")
+				}
+				c.IDs = append(c.IDs, id)
 			}
 		}
 		return c
@@ -260,6 +303,38 @@ func TestC04(t *testing.T) {
 			}
 		}
 		s.St.Exhaust("near-miss passphrases (one character, case, added space, prefix/suffix, Unicode normalisation form) of 6 passphrases", int64(n))
+	}, check)
+	// long passphrases that differ in one character (or its case) far from the start
+	pbt.Each(s, "foreign-exhaustive", func(yield func(c04Case)) {
+		n := 0
+		for _, l := range []int{64, 65, 128, 129, 256, 979, 980, 981, 1000, 1024, 1025, 2048, 5000} {
+			for _, at := range []int{1, l / 2, l - 1, l} {
+				for _, cs := range []bool{false, true} {
+					if s.Mine(n) {
+						yield(c04Case{FlipOf: -1, PlainLen: 3, LongPass: l, IDs: []c04ID{{Kind: "scrypt", LongDiff: at, LongCase: cs}}, Control: n%2 == 0})
+					}
+					n++
+				}
+			}
+		}
+		s.St.Exhaust("passphrases of 64..5000 characters against passphrases that differ in one character or its case at the start, the middle, the last but one and the last position", int64(n))
+	}, check)
+	// a wrong passphrase whose identity's maximum work factor is at, just above and just below the file's
+	pbt.Each(s, "foreign-exhaustive", func(yield func(c04Case)) {
+		n := 0
+		for wf := 1; wf <= 6; wf++ {
+			for _, d := range []int{0, 1, 2} {
+				for _, nid := range []int{1, 3} {
+					ids := []c04ID{{Kind: "scrypt", Pass: "wrong passphrase", MaxWF: wf + d}}
+					for k := 1; k < nid; k++ {
+						ids = append(ids, c04ID{Kind: "scrypt", Pass: fmt.Sprint("another wrong one ", k), MaxWF: wf + d})
+					}
+					yield(c04Case{Recs: []hx.RecSpec{{Kind: "scrypt", Pass: "right passphrase", WF: wf}}, FlipOf: -1, PlainLen: 3, IDs: ids})
+					n++
+				}
+			}
+		}
+		s.St.Exhaust("wrong passphrases with the identity's maximum work factor equal to the file's work factor 1..6, one and two above", int64(n))
 	}, check)
 	// passphrases that are not valid UTF-8 and differ only in an invalid byte
 	pbt.Each(s, "foreign-exhaustive", func(yield func(c04Case)) {
